@@ -45,6 +45,9 @@ class G:
     def pynum(self):
         r = self.r
         x = r.random()
+        if x < 0.04:
+            # Enum members as data values (plain and numeric mix-in), both signs
+            return r.choice(["EN.NEG5", "EN.POS7", "EN.NEGF", "IE.HIGH", "IE.NEG2"] if self.allow_neg else ["EN.POS7", "IE.HIGH"])
         if x < 0.7 or not self.allow_float:
             return self.pyint()
         if x < 0.85:
@@ -61,6 +64,8 @@ class G:
             if k < 0.6:
                 return repr(r.choice(HOSTILE))
             return repr("".join(r.choice(HOSTILE + ["a", "b", " "]) for _ in range(r.randint(1, 4))))
+        if r.random() < 0.05:
+            return r.choice(["EN.TXT", "EN.QUO"])
         return repr(r.choice(["foo", "bar", "b%", "x y", "Z"]))
 
     def num_leaf(self):
